@@ -6,7 +6,7 @@ pub mod sched;
 pub mod sched_thin;
 
 use rt::run::Engine;
-use rt::tok::{Plain16, Plain8, Tok1, Tok16, Tok4, Tok64, Tok8, Tok8b, TokZ};
+use rt::tok::{Bump8, Plain16, Plain8, Tok1, Tok16, Tok4, Tok64, Tok8, Tok8b, TokZ};
 
 #[cfg(feature = "arc-swap")]
 pub fn warm_arc_swap() {
@@ -51,6 +51,7 @@ pub fn sched_engine(shape: &str, prop: &str, max_ops: usize) -> Box<dyn Engine> 
     match shape {
         "tok16" => Box::new(SchedEngine::<Tok16>::new(prop, max_ops)),
         "plain8" => Box::new(SchedEngine::<Plain8>::new(prop, max_ops)),
+        "bump8" => Box::new(SchedEngine::<Bump8>::new(prop, max_ops)),
         "plain16" => Box::new(SchedEngine::<Plain16>::new(prop, max_ops)),
         "tokz" => Box::new(SchedEngine::<TokZ<0>>::new(prop, max_ops)),
         _ => Box::new(SchedEngine::<Tok8>::new(prop, max_ops)),
